@@ -3068,6 +3068,9 @@ class Parser:
                     prop.set("data_consistency", self._advance_any() and self._prev.text.upper())
                 elif self._match_text_seq("HISTORY_RETENTION_PERIOD", "="):
                     prop.set("retention_period", self._parse_retention_period())
+                elif not self._match(TokenType.COMMA, advance=False):
+                    self.raise_error("Unexpected SYSTEM_VERSIONING option")
+                    break
 
                 self._match(TokenType.COMMA)
 
@@ -3084,6 +3087,9 @@ class Parser:
                     prop.set("filter_column", self._parse_column())
                 elif self._match_text_seq("RETENTION_PERIOD", "="):
                     prop.set("retention_period", self._parse_retention_period())
+                elif not self._match(TokenType.COMMA, advance=False):
+                    self.raise_error("Unexpected DATA_DELETION option")
+                    break
 
                 self._match(TokenType.COMMA)
 
